@@ -138,8 +138,8 @@ def sim_flow(ctx: Ctx):
     ctx.ob("FLOW:value-from-maxima", ok_v, prog.where(val),
            "the reported value is the discrete maximum of the conditional maxima (second result of the policy function)"
            if ok_v else "the reported value is not reduced from the conditional maxima", lhs=val)
-    fcp = [s for v in nxt.values() for s in walk(v) if s[0] == "call" and any(
-        x == ("func", "lcm.simulate.filter_ccv_policy") for x in walk(s[1]))]
+    fcp_term = prog.module_frame("lcm.simulate").env.get("filter_ccv_policy")
+    fcp = [s for v in nxt.values() for s in walk(v) if s[0] == "call" and s[1] == fcp_term]
     if fcp:
         ok_f = kw(fcp[0], "ccv_policy") == ("sub", scp, ("const", 0))
         ctx.ob("FLOW:policy-from-argmaxes", ok_f, prog.where(fcp[0]),
